@@ -449,8 +449,71 @@ def u4_acked(fb, chk):
                   "did not acknowledge" % (f.short, why), f.loc())
 
 
+def _atom_on_field(fb, sym, a, fld, value):
+    """Truth of atom `a` when the IOTLB field `fld` has `value` (None: the atom does not constrain that field / unknown)."""
+    def is_fld(t):
+        while t[0] in ("ref", "deref", "cast"):
+            t = t[1]
+        return t[0] == "field" and t[2] == fld and "iotlb" in show(t)
+    if a[0] == "cmp":
+        for op, x, y in ((a[1], a[2], a[3]), ({"Lt": "Gt", "Gt": "Lt", "Le": "Ge", "Ge": "Le", "Eq": "Eq", "Ne": "Ne"}[a[1]], a[3], a[2])):
+            if is_fld(x):
+                c = const_eval(fb, sym, y)
+                if isinstance(c, int):
+                    return {"Eq": value == c, "Ne": value != c, "Lt": value < c, "Le": value <= c, "Gt": value > c, "Ge": value >= c}[op]
+        return None
+    if a[0] == "in" and isinstance(a[1], tuple) and is_fld(a[1]):
+        return (value in a[2]) != a[3]
+    if a[0] in ("true", "false") and a[1][0] == "call" and a[1][1] == "contains" and len(a[1][2]) == 2 and is_fld(a[1][2][1]):
+        rng = a[1][2][0]
+        while rng[0] in ("ref", "deref"):
+            rng = rng[1]
+        lo = hi = None
+        incl = True
+        if rng[0] == "call" and rng[1] == "new" and len(rng[2]) == 2:
+            lo, hi = const_eval(fb, sym, rng[2][0]), const_eval(fb, sym, rng[2][1])
+        elif rng[0] == "agg" and len(rng[3]) == 2:
+            d = dict(rng[3])
+            lo, hi = const_eval(fb, sym, d.get("start", ("unknown",))), const_eval(fb, sym, d.get("end", ("unknown",)))
+            incl = False
+        if isinstance(lo, int) and isinstance(hi, int):
+            inside = lo <= value <= hi if incl else lo <= value < hi
+            return inside == (a[0] == "true")
+    return None
+
+
+def u4_more(fb, chk):
+    # the setter of the acknowledged set stores exactly the value given (a renegotiation replaces the previous set)
+    for f in fb.find(name="set_backend_features_acked"):
+        if not f.blocks or "vhost_kern" not in f.key:
+            continue
+        chk.fn_seen(f)
+        m = must_of(fb, f)
+        ws = field_writes(f)
+        ok = len(ws) == 1
+        detail = "no single field store"
+        for w in ws:
+            v = m.sym.rvalue(w["rv"])
+            detail = show(v)[:60]
+            ok = ok and v[0] == "param" and f.arg_names()[1] == v[2]
+        chk.check(ok, "U4", "acked-setter:%s" % f.short, "acked := features",
+                  "%s stores %s: the acknowledged backend features are not replaced by the newly acknowledged set (a renegotiation without "
+                  "MSG_V2 keeps writing the v2 layout)" % (f.short, detail), f.loc())
+    # the flexible-array wrapper of vhost_vdpa_config does not cap the length below what the UAPI's u32 `len` allows
+    ml = [f for f in fb.find(name="max_len") if "vhost_vdpa_config" in (f.self_ty or f.key)]
+    for f in ml:
+        m = must_of(fb, f)
+        v = const_eval(fb, m.sym, m.sym.local(0))
+        chk.check(v is not None and v >= 0xFFFFFFFF, "U3", "vdpa-config:max-len", "max_len() = u32::MAX",
+                  "the config-space wrapper caps the buffer length at %s: get_config/set_config with a longer (valid) buffer fail before "
+                  "the ioctl is issued" % v, f.loc())
+    if not ml:
+        chk.anchor_missing("U3", "FamStruct::max_len for vhost_vdpa_config")
+
+
 def u4(fb, chk):
     u4_acked(fb, chk)
+    u4_more(fb, chk)
     fs = [f for f in fb.find(name="send_iotlb_msg") if "vhost_kern::" in f.key]
     if len(fs) != 1:
         chk.anchor_missing("U4", "send_iotlb_msg (kernel impl)")
@@ -539,6 +602,28 @@ def u4(fb, chk):
                       "parser of %s stores %s into msg.%s (expected iotlb.%s, under the type-tag check %s)"
                       % (adt, show(rv)[:60], w["field"], IOTLB_R[w["field"]], tagged), p.loc(w["line"]))
         chk.check(cnt == 5, "U4", "parser:%s:fields" % adt, "5 fields parsed", "expected 5 parsed fields, found %d" % cnt, p.loc())
+        # every message type / permission the UAPI defines parses back: the facts under which the fields are stored must
+        # hold for each discriminant of VhostIotlbType and VhostAccess (only the undefined value 0 of `type` may be refused)
+        stores = [w for w in field_writes(p) if w["field"] in IOTLB_R and (w["adt"] or "").endswith("VhostIotlbMsg")]
+        if stores:
+            atoms = pm.atoms_at(stores[0]["bb"])
+            for fld, enum in (("type_", "VhostIotlbType"), ("perm", "VhostAccess")):
+                try:
+                    vals = sorted(set(fb.enum_discriminants("backend::" + enum).values()))
+                    if fld == "type_":
+                        vals = [v for v in vals if v != 0]   # 0 = Empty, "not valid"
+                except Exception:
+                    vals = []
+                refused = []
+                for d in vals:
+                    for a in atoms:
+                        h = _atom_on_field(fb, pm.sym, a, fld, d)
+                        if h is False:
+                            refused.append(d)
+                            break
+                chk.check(bool(vals) and not refused, "U4", "parser:%s:accepts-all-%s" % (adt, fld), "all %d defined values of %s parse" % (len(vals), enum),
+                          "parser of %s refuses the defined %s value(s) %s: a correctly laid-out message of that kind does not parse back"
+                          % (adt, enum, refused or "(enum not found)"), p.loc())
 
 
 # ---------------------------------------------------------------------------- U5
